@@ -20,7 +20,7 @@ CLAIMED.update({
  "C16": dict(
    category="exploration", design="DESIGN.md §3 C16",
    technique="runtime monitoring: N fresh processes per input, byte comparison of stdout / exit status / WARNING lines",
-   text="Tie-rich hand-built inputs for all five device types (k identical groups, equal crypto peers, multi-option rule differences, many same-kind raw objects, unused raw objects of different kinds sharing one name, a raw ACL referenced by two anchors of different kinds, several NSX gateway policies new at once), one pair holding every rule spelling the Linux normaliser rewrites, every file-mode pair of the repository's test data and generated convergence pairs of all five device types are each executed by 16 (quick) / 64 (thorough) fresh drc processes; any difference in script, exit status or warnings is a violation.",
+   text="Tie-rich hand-built inputs for all five device types (k identical groups, equal crypto peers, multi-option rule differences, many same-kind raw objects, unused raw objects of different kinds sharing one name, a raw ACL referenced by two anchors of different kinds, several NSX gateway policies new at once, several input problems of one kind at once), one pair holding every rule spelling the Linux normaliser rewrites, every file-mode pair of the repository's test data and generated convergence pairs of all five device types are each executed by 16 (quick) / 64 (thorough) fresh drc processes; any difference in script, exit status, WARNING>>> or ERROR>>> lines is a violation.",
    note="Go randomises map iteration per range statement; N runs sample the orders, they do not enumerate them. ERROR>>> text and info lines are outside the statement and only recorded as anomalies."),
  "C18": dict(
    category="exploration", design="DESIGN.md §3 C18",
@@ -33,8 +33,8 @@ CLAIMED.update({
  "C13": dict(
    category="exploration", design="DESIGN.md §3 C13",
    technique="runtime monitoring: reference model over conclusive observations vs. the real missing-approve after every event of exhaustively enumerated histories",
-   text="All histories up to depth 5 (quick) / 7 (thorough) over 16 event kinds (new policy same/v4/v6/raw/shrunk to a prefix of the old code, approve ok/failed, compare, drift, repair, bzip2, removal, four kinds of status damage) are executed: status updates by the repository's own status.SetApprove/SetCompare (statusdrv rebuilt from /repo), every policy also holding two dual-stack bystander devices, for devices with the code file layouts v4+v6+raw, v6+raw, v4, v6, v4+raw (the first at full depth, the others one less), file events as real file operations, and the real missing-approve binary is run after every event; plus every byte-offset truncation of the status contents seen. Exact-state memoisation only.",
-   note="The abstraction do-approve => SetApprove(failed)/SetCompare(changed||errors) is read off doapprove.Main; forged-but-valid JSON status files and compressing the current policy are outside the claim."),
+   text="All histories up to depth 5 (quick) / 7 (thorough) over 16 event kinds (new policy same/v4/v6/raw/shrunk to a prefix of the old code, approve ok/failed, compare, drift, repair, bzip2, removal, four kinds of status damage) are executed: status updates by the repository's own status.SetApprove/SetCompare (statusdrv rebuilt from /repo), every policy also holding two dual-stack bystander devices, for devices with the code file layouts v4+v6+raw, v6+raw, v4, v6, v4+raw (the first at full depth, the others one less), file events as real file operations, and the real missing-approve binary is run after every event; plus every byte-offset truncation of the status contents seen, and a session tier: all histories of length <= 3 (quick) / 4 (thorough) over {approve, approve --brief, approve with failing save, compare, compare --brief, drift, new policy} played as complete do-approve sessions against the CLI simulator backed by the device model (ASA, IOS), status written by do-approve itself. Exact-state memoisation only.",
+   note="The abstraction do-approve => SetApprove(failed)/SetCompare(changed||errors) of the exhaustive tier is read off doapprove.Main and checked by the session tier, where do-approve writes the status itself; forged-but-valid JSON status files and compressing the current policy are outside the claim."),
  "C19": dict(
    category="fault_enumeration", design="DESIGN.md §3 C19",
    technique="runtime monitoring with fault injection: BASH_ENV DEBUG-trap kill at every simple command of the unmodified newpolicy.sh, SIGKILL while parked in children, concurrent invocations; file-tree monitor after every event",
@@ -51,12 +51,12 @@ CLAIMED.update({
  "C09": dict(
    category="fault_enumeration", design="DESIGN.md §3 C09",
    technique="runtime monitoring with peer fault injection at every dialogue position; transcript + exit status + status/history oracle",
-   text="For 5 device types x {drc, do-approve approve, do-approve compare} x 3 scenarios a fault of every kind (error text, unexpected output, tolerated notice lines followed by an error line, wrong echo, silent exit status, close, stall, HTTP 4xx/5xx with and without body, malformed body, status=error, commit/job FAIL) is injected at every ordinal position of the reference dialogue (PAN-OS incl. a two-vsys device, ASA incl. a device that needs session set-up), plus, for IOS, an error at a change command whose echo a reload banner interrupts (4 banner forms x 2:00 / 1:00) and seven write-memory variants (NVRAM question then OK / too large / open failed, too large, no [OK], busy once, busy always); after a delivered fault no later change/save may be sent, exit != 0, status FAILED/DIFF and history END: FAILED; on every run status OK requires no delivered fault, all commands accepted and a confirmed save.",
+   text="For 5 device types x {drc, do-approve approve, do-approve compare} x 3 scenarios a fault of every kind (error text, unexpected output, tolerated notice lines followed by an error line, wrong echo, silent exit status, close, stall, death of the ssh client while a prompt is on its way, HTTP 4xx/5xx with and without body, malformed body, status=error, commit/job FAIL) is injected at every ordinal position of the reference dialogue (PAN-OS incl. a two-vsys device, ASA incl. a device that needs session set-up), plus, for IOS, an error at a change command whose echo a reload banner interrupts (4 banner forms x 2:00 / 1:00) and seven write-memory variants (NVRAM question then OK / too large / open failed, too large, no [OK], busy once, busy always); after a delivered fault no later change/save may be sent, exit != 0, status FAILED/DIFF and history END: FAILED (two thirds of the do-approve runs start from the status file of earlier runs); on every run status OK requires no delivered fault, all commands accepted and a confirmed save.",
    note="Output-type faults count only at steps whose answer is a verdict (login, hostname, retrieval, change, guard, save); the second half of a joined line cannot be stopped; dropped HTTP connections stay dead. Quick samples stalls (1 s each) at every 5th position."),
  "C11": dict(
    category="fault_enumeration", design="DESIGN.md §3 C11",
    technique="runtime monitoring: absence of change/save events in the simulator transcript of compare runs, with faults at every position and interlock variants",
-   text="Compare runs (drc -C, do-approve compare) for all device types, 3 scenarios with differences, 5 interlock variants, a PAN-OS candidate configuration holding uncommitted nodes of the login user, drc option sets (no log directory, quiet), other spellings of the compare verb and flag (Compare, COMPARE, --compare, -qC, --compare=true) and a fault of each kind at every dialogue position; the transcript must contain no config-change and no save/commit event, an IOS compare must not enter configuration mode (foreign pending reload whose banner lands inside the configuration listing included), and no file may be copied to the device (scp hook).",
+   text="Compare runs (drc -C, do-approve compare) for all device types, 3 scenarios with differences, 5 interlock variants, an ASA whose 'enable' asks to define a new enable password, a PAN-OS candidate configuration holding uncommitted nodes of the login user, drc option sets (no log directory, quiet), other spellings of the compare verb and flag (Compare, COMPARE, --compare, -qC, --compare=true) and a fault of each kind at every dialogue position; the transcript must contain no config-change and no save/commit event, an IOS compare must not enter configuration mode (foreign pending reload whose banner lands inside the configuration listing included), and no file may be copied to the device (scp hook).",
    note="State is initial config + accepted change events, so unchanged state equals no accepted change event. ASA terminal width is a session setting."),
 })
 
@@ -74,7 +74,7 @@ CLAIMED.update({
  "C17": dict(
    category="exploration", design="DESIGN.md §3 C17",
    technique="runtime monitoring: byte scan of every file, stdout and stderr written by live runs with unique random secrets, under success and injected failures",
-   text="Live runs for all device types, both front-ends, approve and compare, three secret alphabets, info files with one and two device names, the PAN-OS key also delivered as CDATA, and 'drc -u USER' with the password typed on a pseudo terminal (streams on the terminal or redirected; the terminal display is a scanned sink), success plus failures of every kind at the first 8, one middle and the last 3 dialogue positions; all files below basedir and the log directory, stdout and stderr are scanned for password, API key, xsrf token and session cookie in plain, query-/path-escaped, lower-hex-escaped, unescaped and unpadded spelling.",
+   text="Live runs for all device types, both front-ends, approve and compare, three secret alphabets, info files with one and two device names, the PAN-OS key also delivered as CDATA, and 'drc -u USER' with the password typed on a pseudo terminal (streams on the terminal or redirected; the terminal display is a scanned sink), success plus failures of every kind at the first 8, one middle and the last 3 dialogue positions, and the death of the ssh client while a password prompt is still on its way; all files below basedir and the log directory, stdout and stderr are scanned for password, API key, xsrf token and session cookie in plain, query-/path-escaped, lower-hex-escaped, unescaped and unpadded spelling.",
    note="Simulated devices do not echo passwords; device-issued keys are alphanumeric with '=' padding; passwords contain no white space."),
 })
 
@@ -100,7 +100,7 @@ CLAIMED.update({
 CLAIMED.update({
  "C10": dict(category="fault_enumeration", design="DESIGN.md §3 C10",
    technique="runtime monitoring with crash-point enumeration: every prefix of the emitted script is applied to the device model, the real drc is re-run on the dumped hybrid state and its script executed and judged by the engine monitors",
-   text="For seeded pairs of all five device types every prefix length of the command sequence (joined entries split, cuts inside sub-mode blocks) yields a hybrid device state; drc is run again on it with the same target; the tool must accept it, the new script must be executable, reach a state equivalent to the target and compare clean afterwards. quick 400 pairs per type, thorough 3000. A tool crash on a hybrid state counts as not resumable.",
+   text="For seeded pairs of all five device types every prefix length of the command sequence (joined entries split, cuts inside sub-mode blocks) yields a hybrid device state; drc is run again on it with the same target; the tool must accept it, the new script must be executable, reach a state equivalent to the target and compare clean afterwards. quick 400 pairs per type, thorough 3000. A tool crash on a hybrid state counts as not resumable. Class keys of aborts name the situation in the hybrid state (known limitation: crypto map entry left without peer).",
    note="A crash leaves exactly the first k commands applied; PAN-OS prefixes are candidate-config states; Linux iptables load is atomic."),
  "C14": dict(category="exploration", design="DESIGN.md §3 C14",
    technique="runtime monitoring: step monitor evaluating every packet of a small universe against the bound ACLs (and the routed destinations) after every executed script entry",
